@@ -116,6 +116,8 @@ type loopInfo struct {
 	ordinal int
 	blocks  map[*ssa.BasicBlock]bool
 	latches []*ssa.BasicBlock
+	preHeap *State // state at loop entry (loops with their own modifies clause)
+	bound   string // allocation frontier at loop entry
 }
 
 // Frame executes one function body (top-level or inlined).
@@ -441,12 +443,17 @@ func (f *Frame) run(args []*Val, fvs []*Val, st *State, at0 string) {
 					f.env[phi] = f.phiValue(phi, preds, conds)
 				}
 			} else {
+				if f.top {
+					vc.curBlk = b.Index
+					vc.setCurLoopFrame(b) // the enclosing frame (this loop's is registered below)
+				}
 				f.enterLoop(li, b, preds, conds, at, cur)
 			}
 		}
 		f.at[b] = at
 		if f.top {
 			vc.curBlk = b.Index
+			vc.setCurLoopFrame(b)
 		}
 		f.execBlock(b, at, cur)
 		f.out[b] = cur
